@@ -72,6 +72,30 @@ use super::rd::*;
 //@@ include lemmas/json_grammar.rs
 }
 use jg::*;
+pub mod ls {
+use vstd::prelude::*;
+use super::jt::*;
+//@@ include prelude/lexstd.rs
+}
+use ls::*;
+pub mod js {
+use vstd::prelude::*;
+use super::rd::*;
+use super::jg::*;
+use super::ls::*;
+//@@ include lemmas/json_string.rs
+}
+use js::*;
+pub mod jv {
+use vstd::prelude::*;
+use super::rd::*;
+use super::jg::*;
+use super::ls::*;
+use super::js::*;
+use super::jt::*;
+//@@ include lemmas/json_value.rs
+}
+use jv::*;
 
 // JsonParserError: opaque here; `is_io_error` is the IoError variant test (unit LEX proves can_recover against it)
 pub mod jp {
@@ -99,7 +123,14 @@ pub trait JsonParser {
             is_io(r) || advance(old(self).rv().pending, final(self).rv().pending),
             r is Ok && r->Ok_0 is None ==> final(self).rv().pending.len() == 0,
             !(r is Ok && r->Ok_0 is None) && !is_io(r) ==> final(self).rv().pending.len() < old(self).rv().pending.len(),
-            r is Ok && r->Ok_0 is None ==> ws_run(old(self).rv().pending) == old(self).rv().pending.len();
+            r is Ok && r->Ok_0 is None ==> ws_run(old(self).rv().pending) == old(self).rv().pending.len(),
+            // (L3.value, L4.accepts, L4.eof of unit LEX)
+            ({ let p = old(self).rv().pending;
+               r is Ok && r->Ok_0 is Some ==> (match pv(p) {
+                   Some((v, n)) => r->Ok_0->0 == v && 0 < n <= p.len() && final(self).rv().pending =~= from(p, n),
+                   None => false }) }),
+            !is_io(r) && pvs(old(self).rv().pending) ==> r is Ok && r->Ok_0 is Some,
+            !is_io(r) && ws_run(old(self).rv().pending) == old(self).rv().pending.len() ==> r is Ok && r->Ok_0 is None;
 }
 impl<R: Read> JsonParser for Reader<R> {
     open spec fn rv(&self) -> RView { rview(self) }
@@ -143,6 +174,19 @@ pub open spec fn fed_post(o: &dyn Process, n: &dyn Process, fed: Seq<Context>) -
 // no later row can change the output any more (what (P2) promises after Break)
 pub open spec fn done(p: &dyn Process) -> bool { forall|x: Seq<Context>| #[trigger] p.fut(x) == p.fut(Seq::empty()) }
 
+// ---- end to end (C01): on a CLEAN stream — values in accepted spellings separated by white space, nothing else — the
+// pipeline is fed exactly the values of the stream, in order
+pub open spec fn vals(p: Seq<Option<u8>>) -> Seq<JsonValue>
+    decreases p.len()
+{
+    match pv(p) { Some((v, n)) => if 0 < n <= p.len() { seq![v].add(vals(from(p, n))) } else { Seq::empty() }, None => Seq::empty() }
+}
+pub open spec fn clean(p: Seq<Option<u8>>) -> bool
+    decreases p.len()
+{
+    ws_run(p) == p.len() || (pvs(p) && match pv(p) { Some((v, n)) => 0 < n <= p.len() && clean(from(p, n)), None => false })
+}
+pub open spec fn inputs(fed: Seq<Context>) -> Seq<JsonValue> { Seq::new(fed.len(), |k: int| fed[k].inp()) }
 impl<S: Read> Master<S> {
     pub closed spec fn only_oa(&self) -> bool { self.cli.only_objects_and_arrays }
 
@@ -160,7 +204,9 @@ impl<S: Read> Master<S> {
             is_prefix(old(process).log(), final(process).log()), // @obl LOOP.prefix : C16
             // every value is handed to the pipeline exactly once, in order, as a fresh context carrying its position and the
             // two counters; nothing else reaches the pipeline (C01.stream, C11.fresh, C17.idx)
-            r is Ok ==> exists|fed: Seq<Context>| #[trigger] fed_ok(fed, *old(index)) && fed_post(old(process), final(process), fed), // @obl LOOP.stream : C01 C11 C17 C03
+            r is Ok ==> exists|fed: Seq<Context>| #[trigger] fed_ok(fed, *old(index)) && fed_post(old(process), final(process), fed)
+                // ... and on a clean stream read to its end, without --only-objects-and-arrays, these are exactly the stream's values
+                && (r->Ok_0 is Continue && !self.only_oa() && clean(old(reader).pending()) ==> inputs(fed) == vals(old(reader).pending())), // @obl LOOP.stream : C01 C11 C17 C03
             // Continue is returned only at the true end of the input, Break only after the pipeline said Break — and then at once,
             // so the caller can (and does) skip the remaining files
             r is Ok && r->Ok_0 is Continue ==> final(reader).pending().len() == 0, // @obl LOOP.stop : C14 C01
@@ -172,6 +218,8 @@ impl<S: Read> Master<S> {
         let ghost mut fed: Seq<Context> = Seq::empty();
         let ghost i0 = *index;
         let ghost n0 = reader.pending().len();
+        let ghost p0 = reader.pending();
+        proof { assert(inputs(fed).add(vals(p0)) =~= vals(p0)); }
         proof { assert forall|x: Seq<Context>| #[trigger] fed.add(x) =~= x by {} }
 //@@ loop 1
             invariant
@@ -181,7 +229,11 @@ impl<S: Read> Master<S> {
                 *index + reader.pending().len() <= i0 + n0, i0 + n0 <= u64::MAX, i0 == *old(index),
                 fed_post(old(process), process, fed),
                 old(process).must_break() || !process.must_break(),
+                p0 == old(reader).pending(),
+                !self.only_oa() && clean(p0) ==> clean(reader.pending()) && inputs(fed).add(vals(reader.pending())) == vals(p0),
             decreases reader.pending().len(),
+//@@ loop-start 1
+            let ghost ph = reader.pending();
 //@@ before "match process.process(context)? {"
                     let ghost c0 = context;
                     let ghost prev_fed = fed;
@@ -194,6 +246,15 @@ impl<S: Read> Master<S> {
                                 assert(fed_ok(fed, i0));
                                 assert(fed_post(old(process), process, fed));
                             }
+//@@ before "return Ok(ProcessDesision::Continue);"
+                    proof {
+                        lemma_pv(ph);
+                        assert(vals(ph) =~= Seq::<JsonValue>::empty());
+                        assert(inputs(fed).add(Seq::<JsonValue>::empty()) =~= inputs(fed));
+                        assert(fed_ok(fed, i0));
+                        assert(fed_post(old(process), process, fed));
+                        assert(!self.only_oa() && clean(p0) ==> inputs(fed) == vals(p0));
+                    }
 //@@ before "in_file_index += 1;"
                             proof {
                                 assert(fed_ok(fed, i0));
